@@ -16,7 +16,7 @@ MANIFEST = {
              "sighting or purge, byebye removes exactly the named device, invalid messages create and refresh nothing; together: the "
              "judge C03.ok holds on every trace of the model (c03_history). The model is tied to ssdp_listener.py by generated "
              "constants (default max-age, regex text, validity needles, comparison operators) pinned by decide-theorems and by a "
-             "per-event differential check through the real listener stack; the same judge runs on the implementation's device maps. New in round 2: present_within_max_age as a standalone theorem; the string layer is characterised (max-age regex reads any decimal numeral, default otherwise; udn_from_usn; needles; ip version range) and invalid_inert_raw / valid_search_raw / c03_history_raw state the results on the raw decoded headers (whole model: dispatch + string layer + tracker)."),
+             "per-event differential check through the real listener stack; the same judge runs on the implementation's device maps. New in round 2: present_within_max_age as a standalone theorem; the string layer is characterised (max-age regex reads any decimal numeral, default otherwise; udn_from_usn; needles; ip version range) and invalid_inert_raw / valid_search_raw / c03_history_raw state the results on the raw decoded headers (whole model: dispatch + string layer + tracker). Round 4: saturating max-age / valid_to inside the model (max_age_saturates, valid_to_saturates, saturated_never_expires), ipaddress-faithful IPv6 recogniser with Parse.ipVersion_v6."),
     "note": ("Trusted: Lean kernel + propext/Classical.choice/Quot.sound; the max-age regex, udn_from_usn, the location test and "
              "ip_version_from_location are hand-modelled for ASCII input and the URL grammar of the generator (sampled, not proved); "
              "header maps are the abstract maps of C16; datetime arithmetic is integer microseconds (overflow is C02's concern); "
